@@ -26,21 +26,27 @@ MANIFEST = dict(
          "change the set of ground instances of a type, in both directions (C16_lcm_iso, C16_lcm_iso_back, "
          "C16_lcm_factor), and the dimension-expression print/parse round trip at the level of the expression tree "
          "(C16_dexpr_roundtrip: printing any closed dimension type as positive factors / inverted non-positive factors "
-         "and reading it back through the registry gives the same exponent vector); all closed under the global context, "
+         "and reading it back through the registry gives the same exponent vector; C16_annotation_roundtrip_partial: the same "
+         "through type_from_annotation, i.e. used as a parameter or return annotation the printed monomorphic dimension type "
+         "denotes what the inferred one denotes — generic signatures excluded); all closed under the global context, "
          "over the executable model Dim/Model.v + Dim/Infer.v of "
          "typechecker/{mod,constraints,substitutions,type_scheme}.rs. NOT proved (stated as C16_calls_agree_full : Prop): "
-         "that re-checking the body under the printed signature yields the same scheme; that clause is decided on every "
+         "that re-checking the body under the printed signature yields the same scheme (this needs principality and invariance "
+         "of the checker under renaming of fresh variables, which do not follow from the semantic theorems); that clause is decided on every "
          "run by the oracle on the real implementation (echoed definition fed back, generated call sites with concrete "
          "dimensions must get the same verdict and result type) and by the model/implementation correspondence on the "
          "raw inferred schemes.",
     design_ref="DESIGN.md §6 C16; design/dim.md",
     note="Trusted: Coq kernel + vm_compute; hand-written model validated by correspondence only; hook numbat::verif::dim "
-         "(raw TypeScheme text); Statement::pretty_print as the 'printed signature'. Open finding C16-multi-name: a "
-         "signature whose dimension has several registered names is printed as 'A or B', which is not valid syntax.",
+         "(raw TypeScheme text); Statement::pretty_print as the 'printed signature'. Open findings C16-multi-name (a "
+         "signature whose dimension has several registered names is printed as 'A or B', not valid syntax) and "
+         "C16-superscript-exponent (two-digit superscript exponents are not read back); fixed: C16-where-local-types, "
+         "C16-generic-echo-names.",
     technique="Coq proof (semantic instance sets under substitution) + model/implementation correspondence + re-annotation oracle",
 )
 
-THEOREMS = ["C16_lcm_iso", "C16_lcm_iso_back", "C16_lcm_factor", "C16_dexpr_roundtrip"]
+THEOREMS = ["C16_lcm_iso", "C16_lcm_iso_back", "C16_lcm_factor", "C16_dexpr_roundtrip",
+            "C16_annotation_roundtrip_partial"]
 IMPORTS = ["Dim.Model", "Dim.Infer", "Dim.Exec", "Gen.PreludeDims"]
 
 num = lambda s: ("num", s)
